@@ -1,6 +1,7 @@
 package props
 
 import (
+	"bytes"
 	"crypto/sha256"
 	"fmt"
 	"net"
@@ -58,6 +59,33 @@ func TestC13(t *testing.T) {
 				ev.Violation(t, "C13", map[string]any{"message": want}, "Bytes panicked: %v", e)
 			}
 			rp := map[string]any{"message": want, "bytes": hx(b)}
+			// what RR.Bytes returned for one record is the caller's: encoding other records, or the
+			// whole message again, leaves it as it was
+			if rapid.IntRange(0, 3).Draw(t, "records_encoded_one_by_one") == 0 {
+				var kept, copies [][]byte
+				for _, sec := range [][]dns.RR{enc.Answer, enc.Authority, enc.Additional} {
+					for _, rr := range sec {
+						var rb []byte
+						if e := guard(func() error { rb = rr.Bytes(); return nil }); e != nil {
+							ev.Violation(t, "C13", rp, "RR.Bytes panicked: %v", e)
+						}
+						kept = append(kept, rb)
+						copies = append(copies, append([]byte{}, rb...))
+					}
+				}
+				guard(func() error { enc.Bytes(); return nil })
+				for i := range kept {
+					if !bytes.Equal(kept[i], copies[i]) {
+						ev.Violation(t, "C13", rp, "the bytes RR.Bytes returned for record %d changed when later records were encoded:\n was %x\n now %x", i, copies[i], kept[i])
+					}
+				}
+				if b2 := enc.Bytes(); !bytes.Equal(b2, b) {
+					ev.Violation(t, "C13", rp, "Bytes() of the same message differs between two calls")
+				}
+				if len(kept) >= 2 {
+					cl = append(cl, "records_encoded_one_by_one")
+				}
+			}
 			got, err := decodeGuard(b)
 			if err != nil {
 				ev.Violation(t, "C13", rp, "DecodeMessage(Bytes()) failed: %v", err)
